@@ -444,6 +444,32 @@ struct H {
         if (text_of(root) != before) {
             ctx.fail("groupby-modified-source", "rendering a grouped loop changed the value");
         }
+        // the grouping is a value of its own (members that are arrays or objects included): its source is changed and released, then it is
+        // read again - through a copy too - and says what it said before
+        {
+            const std::string got_before = text_of(grouped);
+            Value<Char_T>     arr2       = Memory::Move(root[wstr<Char_T>("arr")]);
+            for (SizeT i = 0; i < arr2.Size(); ++i) {
+                Value<Char_T> *o = arr2.GetValue(i);
+                if (o != nullptr && o->IsObject()) {
+                    for (SizeT k = 0; k < o->Size(); ++k) {
+                        Value<Char_T> *mv = o->GetValue(k);
+                        if (mv != nullptr && (mv->IsArray() || mv->IsObject())) {
+                            *mv = wstr<Char_T>("replaced");
+                        }
+                    }
+                }
+            }
+            if (text_of(grouped) != got_before) {
+                ctx.fail("groupby-result-shares-source", "the grouping changed when members of its source were overwritten: " + text_of(grouped) + " was " + got_before);
+            }
+            arr2.Reset();
+            root.Reset();
+            Value<Char_T> copy = grouped;
+            if (text_of(grouped) != got_before || text_of(copy) != got_before) {
+                ctx.fail("groupby-result-shares-source", "the grouping changed when its source was released: " + text_of(grouped) + " was " + got_before);
+            }
+        }
     }
 };
 
